@@ -3,6 +3,7 @@ import OpdaModel.Emp
 import OpdaModel.Band
 import OpdaModel.Drv.Emp
 import OpdaModel.Steck
+import OpdaModel.RectProb
 /-! Line-protocol handlers for the band distributions of `confidence_bands` (exact arithmetic). -/
 namespace Opda.Drv.Band
 open Opda.Wire Opda.Emp Opda.Band
@@ -25,6 +26,13 @@ def handle (fn : String) (args : List String) : Option String := do
     let (be, _) ← takeList parseRat? rest
     if al.length ≠ be.length || al.isEmpty then none
     else return ratStr (Opda.Steck.coverage al.toArray be.toArray)
+  if fn == "rect" then
+    -- same arguments: the same probability by the cell-by-cell dynamic programme of `OpdaModel/RectProb.lean`
+    -- (proved to be the volume of the rectangle event: `Opda.Props.C01.rect_coverage_is_volume`)
+    let (al, rest) ← takeList parseRat? args
+    let (be, _) ← takeList parseRat? rest
+    if al.length ≠ be.length || al.isEmpty then none
+    else return ratStr (Opda.RectProb.coverage al be)
   let (a, b, ys, levels, rest) ← parse args
   let supp := support Ext.negInf Ext.posInf a b (bandObs a b ys levels)
   match fn with
